@@ -50,6 +50,11 @@ SOInit == [schema |-> TRUE, el |-> <<>>]
 SOIsValue(st) == ~st.schema /\ \A i \in 1..Len(st.el) : st.el[i] # PH
 NormIdx(st, i) == IF i < 0 THEN Len(st.el) + i ELSE i          \* Python index -> 0-based
 
+(* Python slice bounds [i:v] on a list of n elements (no step): 0-based lo, hi with lo <= hi *)
+ClampIdx(n, x) == IF x < 0 THEN (IF n + x < 0 THEN 0 ELSE n + x) ELSE (IF x > n THEN n ELSE x)
+SliceLo(n, i) == ClampIdx(n, i)
+SliceHi(n, i, v) == IF ClampIdx(n, v) < ClampIdx(n, i) THEN ClampIdx(n, i) ELSE ClampIdx(n, v)
+
 ApplySO(st, op) ==
   LET n == Len(st.el) IN
   CASE op.o \in {"set", "setitem"} ->       \* documented range: an existing position or len(self)
@@ -66,6 +71,13 @@ ApplySO(st, op) ==
     [] op.o = "reverse" -> IF st.schema THEN Either(st) ELSE Good([st EXCEPT !.el = Reversed(st.el)], NORET)
     \* readers
     [] op.o = "len" -> Good(st, n)
+    \* slices, as for a Python list: s[i:v] reads, s[i:v] = <<..>> replaces that stretch (the list may shrink or grow)
+    [] op.o = "getslice" -> Good(st, SliceHi(n, op.i, op.v) - SliceLo(n, op.i))
+    [] op.o \in {"setslice0", "setslice1", "setslice2"} ->
+         LET vals == IF op.o = "setslice0" THEN <<>> ELSE IF op.o = "setslice1" THEN <<7>> ELSE <<7, 8>>
+             lo == SliceLo(n, op.i)  hi == SliceHi(n, op.i, op.v)
+         IN IF st.schema /\ vals = <<>> THEN Either(st)       \* nothing assigned to a schema object: status not specified
+            ELSE Good([schema |-> FALSE, el |-> SubSeq(st.el, 1, lo) \o vals \o SubSeq(st.el, hi + 1, n)], NORET)
     [] op.o = "getitem" ->                  \* s[i]: existing member is a pure read; s[len] instantiates a placeholder
          LET i == NormIdx(st, op.i) IN
          IF i < 0 \/ i > n THEN Bad
@@ -132,4 +144,14 @@ ApplySQ(st, op) ==
     [] op.o = "len" -> Good(st, NORET)           \* counts allocated slots: not specified
     [] op.o = "contains" -> Good(st, IF op.i >= 0 /\ op.i < NComp THEN 1 ELSE 0)     \* name in seq
     [] op.o \in {"iter", "keys", "prettyPrint", "eq", "encode", "clone", "cloneschema"} -> Good(st, NORET)
+
+(***************************************************************************)
+(* SET { a INTEGER, b [0] INTEGER OPTIONAL, c [1] INTEGER DEFAULT DfltC }:  *)
+(* the same dict machine, members also addressed by their tags             *)
+(***************************************************************************)
+ApplyST(st, op) ==
+  CASE op.o = "setbytype" -> ApplySQ(st, [op EXCEPT !.o = "set"])
+    [] op.o = "getbytype" -> ApplySQ(st, [op EXCEPT !.o = "getitem"])
+    [] op.o = "peekbytype" -> ApplySQ(st, [op EXCEPT !.o = "peek"])
+    [] OTHER -> ApplySQ(st, op)
 =============================================================================
